@@ -828,3 +828,74 @@ Lemma fir_plan_example :
   fir_plan 2 0 None 8 44 = Plan 9 [] /\ fir_plan 2 0 (Some (1 # 5)) 40 12 = PlanErr /\
   fir_plan 2 0 (Some (6 # 5)) 8 44 = PlanErr.
 Proof. vm_compute. repeat split; reflexivity. Qed.
+
+(* ------------------------------------------------------------------ iir: the band specification *)
+Lemma Qmax'_lt a b c : Qmax' a b < c <-> a < c /\ b < c.
+Proof.
+  unfold Qmax'. destruct (Qle_bool a b) eqn:E.
+  - apply Qle_bool_iff in E. split; [intros; split; lra|intros [_ H]; exact H].
+  - assert (b < a). { apply Qnot_le_lt. intros L. apply Qle_bool_iff in L. congruence. }
+    split; [intros; split; lra|intros [H0 _]; exact H0].
+Qed.
+Lemma Qmin'_gt a b c : c < Qmin' a b <-> c < a /\ c < b.
+Proof.
+  unfold Qmin'. destruct (Qle_bool a b) eqn:E.
+  - apply Qle_bool_iff in E. split; [intros; split; lra|intros [H _]; exact H].
+  - assert (b < a). { apply Qnot_le_lt. intros L. apply Qle_bool_iff in L. congruence. }
+    split; [intros; split; lra|intros [_ H0]; exact H0].
+Qed.
+Lemma Qeq_bool_false a b : ~ a == b -> Qeq_bool a b = false.
+Proof. intros H. destruct (Qeq_bool a b) eqn:E; [|reflexivity]. apply Qeq_bool_iff in E. contradiction. Qed.
+Lemma Qltb_true a b : a < b -> Qltb a b = true. Proof. apply Qltb_lt. Qed.
+Lemma Qltb_false a b : b <= a -> Qltb a b = false. Proof. apply Qltb_ge. Qed.
+
+(* the stop-band edges lie strictly outside the pass band exactly in these ranges *)
+Lemma iir_high_ok lbf : 1 # 10 < lbf -> lbf < 1 ->
+  exists ws, iir_of_fracs lbf 1 = IirHigh lbf ws /\ 0 < ws /\ ws < lbf.
+Proof.
+  intros H1 H2. exists (Qmax' (lbf - (1 # 10)) (1 # 10)). unfold iir_of_fracs.
+  rewrite (Qltb_true 0 lbf) by lra. rewrite (Qltb_false 1 1) by lra. cbn [andb].
+  rewrite (Qeq_bool_false lbf 0) by lra.
+  replace (Qeq_bool 1 1) with true by reflexivity.
+  split; [reflexivity|]. split.
+  - unfold Qmax'. destruct (Qle_bool (lbf - (1 # 10)) (1 # 10)) eqn:E; [lra|].
+    apply Qnot_le_lt. intros L. assert (lbf - (1 # 10) <= 1 # 10) by lra.
+    apply Qle_bool_iff in H. congruence.
+  - apply Qmax'_lt. split; lra.
+Qed.
+Lemma iir_low_ok ubf : 0 < ubf -> ubf < 9 # 10 ->
+  exists ws, iir_of_fracs 0 ubf = IirLow ubf ws /\ ubf < ws /\ ws < 1.
+Proof.
+  intros H1 H2. exists (Qmin' (ubf + (1 # 10)) (9 # 10)). unfold iir_of_fracs.
+  rewrite (Qltb_false 0 0) by lra. cbn [andb].
+  replace (Qeq_bool 0 0) with true by reflexivity.
+  split; [reflexivity|]. split.
+  - apply Qmin'_gt. split; lra.
+  - unfold Qmin'. destruct (Qle_bool (ubf + (1 # 10)) (9 # 10)) eqn:E; [|lra].
+    apply Qle_bool_iff in E. lra.
+Qed.
+Lemma iir_band_ok lbf ubf : 1 # 1000 < lbf -> lbf < ubf -> ubf < 999 # 1000 ->
+  exists ws1 ws2, iir_of_fracs lbf ubf = IirBand lbf ubf ws1 ws2 /\
+    0 < ws1 /\ ws1 < lbf /\ ubf < ws2 /\ ws2 < 1.
+Proof.
+  intros H1 H2 H3.
+  exists (Qmax' (lbf - (1 # 10)) (1 # 1000)), (Qmin' (ubf + (1 # 10)) (999 # 1000)). unfold iir_of_fracs.
+  rewrite (Qltb_true 0 lbf) by lra. rewrite (Qltb_true ubf 1) by lra. cbn [andb].
+  split; [reflexivity|]. split; [|split; [|split]].
+  - unfold Qmax'. destruct (Qle_bool (lbf - (1 # 10)) (1 # 1000)) eqn:E; [lra|].
+    apply Qnot_le_lt. intros L. assert (lbf - (1 # 10) <= 1 # 1000) by lra.
+    apply Qle_bool_iff in H. congruence.
+  - apply Qmax'_lt. split; lra.
+  - apply Qmin'_gt. split; lra.
+  - unfold Qmin'. destruct (Qle_bool (ubf + (1 # 10)) (999 # 1000)) eqn:E; [|lra].
+    apply Qle_bool_iff in E. lra.
+Qed.
+
+(* outside them the fixed clamps 0.1 / 0.9 put the stop edge INSIDE the pass band: scipy then designs
+   the opposite filter type (wp < ws means low-pass) *)
+Lemma iir_high_refuted : exists lbf, 0 < lbf /\ lbf < 1 /\
+  exists ws, iir_of_fracs lbf 1 = IirHigh lbf ws /\ lbf < ws.
+Proof. exists (2 # 25). split; [lra|]. split; [lra|]. exists (1 # 10). split; [reflexivity|lra]. Qed.
+Lemma iir_low_refuted : exists ubf, 0 < ubf /\ ubf < 1 /\
+  exists ws, iir_of_fracs 0 ubf = IirLow ubf ws /\ ws < ubf.
+Proof. exists (19 # 20). split; [lra|]. split; [lra|]. exists (9 # 10). split; [reflexivity|lra]. Qed.
